@@ -49,6 +49,7 @@ type tracer struct {
 	quiet     bool // do not record events (plain runs)
 	preflight bool // count probe calls and sequence results only (budget check before the judged run)
 	count     int
+	noIndex   bool            // C17: do not learn the Memoize indices (no parse before the measured ones)
 	callLimit int             // C17: abort a run whose Context.CallCount() exceeds this (0: no limit)
 	trees     bool            // render full trees in top-level returns
 	watch     *watcher        // C07: re-observation of everything returned so far
@@ -168,9 +169,11 @@ func (t *tracer) probe(id int, p parsley.Parser) parser.Func {
 			if g := t.g[top.n-1]; g.K == "memo" && g.Kids[0] == id && top.pos == int(pos) {
 				top.body = true
 				bo = top.n
-				for _, f := range t.stack {
-					if f.n == top.n && f.pos == top.pos && f.body {
-						act++
+				if !t.quiet || t.remain != nil { // (quiet measuring runs do not need the activation count: O(depth) per call)
+					for _, f := range t.stack {
+						if f.n == top.n && f.pos == top.pos && f.body {
+							act++
+						}
 					}
 				}
 				t.bodyRuns[[2]int{top.n, int(pos)}]++
@@ -281,7 +284,10 @@ func build(G []gnode, t *tracer) []parsley.Parser {
 	if t.bodyRuns == nil {
 		t.bodyRuns = map[[2]int]int{}
 	}
-	base := memoBase()
+	base := 0
+	if !t.noIndex {
+		base = memoBase()
+	}
 	ps := make([]parsley.Parser, len(G))
 	fs := make([]parser.Func, len(G))
 	for i := range G {
